@@ -608,12 +608,20 @@ def run(ck: Ck) -> None:
                  'replaceN', 'logicalpos', 'TokenSyntaxError')
     if any(any(m in k for m in str_marks) for k in keys):
         ck.explain('instance:strings_escaped:')
+        ck.explain('instance:program_ok:')
+        ck.explain('instance:programs_all_ok')
     if any(k.startswith(('field:', 'text:', 'parse-error:', 'file:')) for k in keys):
         ck.explain('instance:keys_read:')
         ck.explain('tie:')
     if any('isplacement' in k or 'disp' in k for k in keys):
         ck.explain('instance:disp_shape')
         ck.explain('instance:disp_arrays_complete')
+        ck.explain('instance:disp_row_keys_read')
+    if any('outputs' in k or 'connections' in k for k in keys):
+        ck.explain('instance:output_')
+        ck.explain('correspondence:output_')
+    if any('fixups' in k or 'replaceN' in k for k in keys):
+        ck.explain('correspondence:fixup_init')
     if any(k.startswith('order:entities') or k.startswith('text::') for k in keys):
         ck.explain('instance:entity_blocks_read_in_file_order')
     if any('fixups' in k or 'replaceN' in k for k in keys):
